@@ -25,7 +25,7 @@ CHECKS = {
                 tech="TLA+ model checking (TLC) of Pipeline.tla + spec->code replay + TLC evaluation of GraphProps!ModesRespected on observed states"),
     "C04": dict(engine="pipeline", ref="4 C04", text=("The terminal state of every scenario of Pipeline.tla (enumerated by TLC, or the specification run on random graphs via PipelineFrom.tla) carries a symbolic parameter term per tensor; the harness resolves each term against on-grid statistics and constants, TLC (QuantMathExt.tla, exact rationals) computes the expected zero points and scales and judges the bytes the implementation stored; annotations are compared with TLC's values and TLC (Observed.tla) evaluates the relational clauses on the observed graph. ") + "C04: dtype, lengths, quantised dimension (table from the TFLite spec), zero point (exact; either neighbour on an exact tie TLC detects), scale (1e-6 relative), bias = input x weight scale, fixed ranges, ParamRelations (same-as-input / concatenation sharing).", note=PIPE_NOTE + " Statistics and constants on a dyadic grid; numpy trusted for per-channel min/max.",
                 tech="TLA+ model checking (TLC): Pipeline.tla symbolic parameters + exact-rational reference QuantMathExt.tla + spec->code comparison of annotations"),
-    "C05": dict(engine="pipeline", ref="4 C05", text=("The terminal state of every scenario of Pipeline.tla (enumerated by TLC, or the specification run on random graphs via PipelineFrom.tla) carries a symbolic parameter term per tensor; the harness resolves each term against on-grid statistics and constants, TLC (QuantMathExt.tla, exact rationals) computes the expected zero points and scales and judges the bytes the implementation stored; annotations are compared with TLC's values and TLC (Observed.tla) evaluates the relational clauses on the observed graph. ") + "C05: for every rewritten constant TLC checks byte length, int4 nibble order and padding, and the element-wise decode bound (step/2 symmetric, step asymmetric, + step/4096 slack) on the stored bytes; bias codes against round_half_even(b/(s_in*s_w)); float16 constants byte-exact.", note=PIPE_NOTE + " On-grid constants (float16 cast exact); bias codes above 2^20 get float32 slack.",
+    "C05": dict(engine="pipeline", ref="4 C05", text=("The terminal state of every scenario of Pipeline.tla (enumerated by TLC, or the specification run on random graphs via PipelineFrom.tla) carries a symbolic parameter term per tensor; the harness resolves each term against on-grid statistics and constants, TLC (QuantMathExt.tla, exact rationals) computes the expected zero points and scales and judges the bytes the implementation stored; annotations are compared with TLC's values and TLC (Observed.tla) evaluates the relational clauses on the observed graph. ") + "C05: for every rewritten constant TLC checks byte length, int4 nibble order and padding, and the element-wise decode bound (step/2 symmetric, step asymmetric, + step/64 slack) on the stored bytes; bias codes against round_half_even(b/(s_in*s_w)); float16 constants byte-exact.", note=PIPE_NOTE + " On-grid constants (float16 cast exact); bias codes above 2^20 get float32 slack.",
                 tech="TLA+ model checking (TLC): exact-rational decode of observed bytes in QuantMathExt.tla"),
     "C15": dict(engine="pipeline", ref="4 C15", text=("The terminal state of every scenario of Pipeline.tla (enumerated by TLC, or the specification run on random graphs via PipelineFrom.tla) carries a symbolic parameter term per tensor; the harness resolves each term against on-grid statistics and constants, TLC (QuantMathExt.tla, exact rationals) computes the expected zero points and scales and judges the bytes the implementation stored; annotations are compared with TLC's values and TLC (Observed.tla) evaluates the relational clauses on the observed graph. ") + "C15: scenarios in which a constant tensor has several consumers or two tensors (same or different subgraphs) share a buffer, under every assignment of modes to the sharers: either quantize() raises (predicted raise site) or every referencing tensor's dtype/parameters agree with the stored bytes (decode per referencing tensor) and SharedConstOK holds on the observed graph.", note=PIPE_NOTE,
                 tech="TLA+ model checking (TLC) of Pipeline.tla (SharedConstOK, buffer-sharing check) + spec->code replay + exact-rational decode of shared buffers"),
